@@ -123,6 +123,15 @@ type FnLocks struct {
 	// the deferred calls registered later have run (LIFO) and before those registered earlier.
 	RunMust map[*ssa.Defer]LockSet
 	RunMay  map[*ssa.Defer]LockSet
+	// Unheld: release operations (direct, or deferred ones at the point where they run) reached
+	// with the lock's class held on no path — "sync: Unlock of unlocked RWMutex", a fatal error
+	Unheld []unheldRelease
+}
+
+type unheldRelease struct {
+	At    ssa.Instruction // the Unlock call, or the RunDefers that runs a deferred one
+	Defer *ssa.Defer      // the deferred call, if any
+	Class string
 }
 
 type defEntry struct {
@@ -183,6 +192,13 @@ func analyseLocks(fn *ssa.Function, entry LockSet) *FnLocks {
 			}
 		}
 	}
+	// keyed by site and rewritten every time the site's block is processed: the last processing of a
+	// block sees its fixpoint state
+	type unheldKey struct {
+		at ssa.Instruction
+		d  *ssa.Defer
+	}
+	unheld := map[unheldKey]unheldRelease{}
 	work := []int{0}
 	inWork := map[int]bool{0: true}
 	for len(work) > 0 {
@@ -199,6 +215,11 @@ func analyseLocks(fn *ssa.Function, entry LockSet) *FnLocks {
 				if op, ok := asLockOp(x); ok {
 					if !op.Known {
 						res.Unknow = append(res.Unknow, x)
+					}
+					if !op.Acquire && op.Known && st.may.HoldsClass(op.Class) == 0 {
+						unheld[unheldKey{x, nil}] = unheldRelease{At: x, Class: op.Class}
+					} else if !op.Acquire {
+						delete(unheld, unheldKey{x, nil})
 					}
 					apply(st.must, op, true)
 					apply(st.may, op, false)
@@ -223,6 +244,11 @@ func analyseLocks(fn *ssa.Function, entry LockSet) *FnLocks {
 				for i := len(st.deferred) - 1; i >= 0; i-- {
 					d := st.deferred[i]
 					if d.isLock {
+						if d.op.Known && st.may.HoldsClass(d.op.Class) == 0 {
+							unheld[unheldKey{x, d.at}] = unheldRelease{At: x, Defer: d.at, Class: d.op.Class}
+						} else {
+							delete(unheld, unheldKey{x, d.at})
+						}
 						apply(st.must, d.op, true)
 						apply(st.may, d.op, false)
 						continue
@@ -315,6 +341,10 @@ func analyseLocks(fn *ssa.Function, entry LockSet) *FnLocks {
 			}
 		}
 	}
+	for _, u := range unheld {
+		res.Unheld = append(res.Unheld, u)
+	}
+	sort.Slice(res.Unheld, func(i, j int) bool { return res.Unheld[i].At.Pos() < res.Unheld[j].At.Pos() })
 	return res
 }
 
@@ -420,6 +450,21 @@ func (p *Program) Locks() *LockInfo {
 			}
 			var acc LockSet
 			sites := 0
+			// a closure handed straight to a library function that calls it before returning
+			// (sort.Slice's less, sync.Map.Range's visitor …) runs with what its creator holds there
+			if site := syncCallbackSite(fn); site != nil {
+				if fl := li.Fns[fn.Parent()]; fl != nil {
+					held := LockSet{}
+					for _, h := range fl.Must[site] {
+						held[h.Class+"|?"] = Held{Class: h.Class, Root: "?", Mode: h.Mode}
+					}
+					if !sameLS(held, entry[fn]) {
+						entry[fn] = held
+						changed = true
+					}
+					continue
+				}
+			}
 			for _, e := range n.In {
 				caller := e.Caller.Func
 				fl := li.Fns[caller]
@@ -475,6 +520,42 @@ func (p *Program) Locks() *LockInfo {
 		}
 	}
 	return li
+}
+
+// syncCallbackSite: fn is a closure whose only use is as an argument of a call, in its parent, to a
+// standard-library function that invokes its callback synchronously; returns that call.
+func syncCallbackSite(fn *ssa.Function) *ssa.Call {
+	par := fn.Parent()
+	if par == nil {
+		return nil
+	}
+	var site *ssa.Call
+	uses := 0
+	for _, b := range par.Blocks {
+		for _, in := range b.Instrs {
+			mc, ok := in.(*ssa.MakeClosure)
+			if !ok || mc.Fn != ssa.Value(fn) || mc.Referrers() == nil {
+				continue
+			}
+			for _, r := range *mc.Referrers() {
+				uses++
+				call, isCall := r.(*ssa.Call)
+				if !isCall {
+					continue
+				}
+				switch CalleeName(call) {
+				case "sort.Slice", "sort.SliceStable", "sort.Search", "slices.SortFunc", "slices.SortStableFunc", "slices.IndexFunc",
+					"slices.ContainsFunc", "slices.DeleteFunc", "slices.BinarySearchFunc", "strings.Map", "strings.FieldsFunc", "strings.IndexFunc",
+					"strings.TrimFunc", "(*sync.Map).Range", "(*sync.Once).Do":
+					site = call
+				}
+			}
+		}
+	}
+	if uses != 1 {
+		return nil
+	}
+	return site
 }
 
 func recvExported(fn *ssa.Function) bool {
